@@ -1,4 +1,6 @@
 """C11 - function handles keep alive exactly what they need."""
+import re
+
 from .. import mir, hir
 from ..facts import relfile
 from ..report import RuleResult
@@ -401,6 +403,18 @@ RELINQUISH_REVIEWED = {
 }
 
 
+def _owns_nothing(F, ty, depth=0):
+    """A crate type whose fields are all borrows, raw pointers, function pointers or plain numbers (or structs of such): forgetting a
+    value of it keeps nothing alive (it only defuses the type's Drop - the usual shape of a panic guard)."""
+    name = re.sub(r"<.*$", "", ty or "").strip()
+    adt = F.adt(name) if name else None
+    if adt is None or adt.get("kind") != "struct" or depth > 2:
+        return False
+    fields = [f.get("ty") or "" for v in adt["variants"] for f in v["fields"]]
+    plain = re.compile(r"^(&|\*const |\*mut |usize$|isize$|u\d+$|i\d+$|bool$|std::ptr::NonNull<|std::marker::PhantomData<|(std::option::Option<)?(unsafe )?(extern \"C\" )?fn\()")
+    return bool(fields) and all(plain.match(f) or _owns_nothing(F, f, depth + 1) for f in fields)
+
+
 def rule_h9(F):
     """'Released exactly once, after the last handle or package referring to them is gone': everything the runtime owns is released by
     ordinary drops, so every place that gives ownership up WITHOUT a drop - mem::forget, into_raw, leak, ManuallyDrop::new,
@@ -428,6 +442,8 @@ def rule_h9(F):
                 continue
             owner = b.path.split("::{closure")[0]
             reason = next((v for (fn, p_), v in RELINQUISH_REVIEWED.items() if owner.endswith(fn) and p_ == prim), None)
+            if reason is None and prim == "forget" and _owns_nothing(F, (t["f"].get("gargs") or [""])[0]):
+                reason = "decided: the forgotten value is a guard that owns nothing (fields are borrows / raw pointers / numbers)"
             r.inst("%s %s" % (owner, prim), {"fn": owner, "line": t.get("line"), "primitive": prim, "reviewed": reason})
             if reason is None:
                 r.bad(owner, "%s outside the reviewed sites" % prim, relfile(b.file), t.get("line"),
